@@ -186,6 +186,14 @@ class LParser(Parser):
                 k, v = self.peek()
                 if v not in ("while", "loop", "for"):
                     raise Unsupported("label on a non-loop")
+            # ---- BEGIN hook BT3 (tools/rs2lean_ext.py): statements of the extended subset (subclasses only)
+            hook = getattr(self, "parse_stmt_hook", None)
+            if hook is not None:
+                hst = hook(k, v, label, site)
+                if hst is not None:
+                    stmts.append(hst)
+                    continue
+            # ---- END hook BT3
             if k == "id" and v == "let":
                 self.next()
                 if self.peek()[1] == "Some":
@@ -1734,3 +1742,11 @@ def run(status, changed, fns):
     run_group(status, changed, "U32sLoops", u_rel, ["TF.Model.Word"],
               [(ln, rn, fuel, u_rel, kw(anchor)) for ln, rn, anchor, fuel in U32S_FUNCTIONS], read_src, {}, {},
               outside=[(ln, rn, u_rel, kw(anchor)) for ln, rn, anchor in U32S_OUTSIDE])
+
+    # ---- BEGIN hook BT3: extended subset (tools/rs2lean_ext.py): U32s rem_div/cmp/conversions, NTT, lattice
+    try:
+        import rs2lean_ext
+        rs2lean_ext.run(status, changed, read_src)
+    except Exception as ex:      # never fatal for the functions above; recorded as a refusal
+        status["failed"]["ext"] = f"internal: {type(ex).__name__}: {ex}"
+    # ---- END hook BT3
